@@ -26,24 +26,24 @@ Definition bytes_to_bits (bs : list byte) : list bool := flat_map byte_bits bs.
 
 (* ------------------------------------------------------------------------------------- *)
 (* lia with / and mod *)
-Ltac Zify.zify_post_hook ::= Z.div_mod_to_equations.
+Local Ltac Zify.zify_post_hook ::= Z.div_mod_to_equations.
 
-Arguments N.pow : simpl never.
-Arguments N.shiftl : simpl never.
-Arguments N.shiftr : simpl never.
-Arguments N.land : simpl never.
-Arguments N.lor : simpl never.
-Arguments N.lxor : simpl never.
-Arguments N.ldiff : simpl never.
-Arguments N.testbit : simpl never.
-Arguments N.log2 : simpl never.
-Arguments N.mul : simpl never.
-Arguments N.add : simpl never.
-Arguments N.sub : simpl never.
-Arguments N.div : simpl never.
-Arguments N.modulo : simpl never.
-Arguments N.of_nat : simpl never.
-Arguments N.to_nat : simpl never.
+Local Arguments N.pow : simpl never.
+Local Arguments N.shiftl : simpl never.
+Local Arguments N.shiftr : simpl never.
+Local Arguments N.land : simpl never.
+Local Arguments N.lor : simpl never.
+Local Arguments N.lxor : simpl never.
+Local Arguments N.ldiff : simpl never.
+Local Arguments N.testbit : simpl never.
+Local Arguments N.log2 : simpl never.
+Local Arguments N.mul : simpl never.
+Local Arguments N.add : simpl never.
+Local Arguments N.sub : simpl never.
+Local Arguments N.div : simpl never.
+Local Arguments N.modulo : simpl never.
+Local Arguments N.of_nat : simpl never.
+Local Arguments N.to_nat : simpl never.
 
 (* ===================================================================================== *)
 (** * Bytes: round trips and exhaustive sweeps *)
@@ -653,6 +653,11 @@ Example bitvector_check_ex :
   /\ bitvector_check [] 0 = OK tt /\ bitvector_check [b0] 0 = Err.
 Proof. repeat split; vm_compute; reflexivity. Qed.
 
+(* The bound [n < 2^64 - 7] is tight: for the seven largest uint64 lengths the Go expression
+   (bitLength + 7) >> 3 wraps around, and the empty string is accepted. *)
+Example bitvector_check_wrap : bitvector_check [] (2 ^ 64 - 7) = OK tt /\ bitvector_check [] (2 ^ 64 - 1) = OK tt.
+Proof. split; vm_compute; reflexivity. Qed.
+
 (* ===================================================================================== *)
 (** * 4. bitlist_len *)
 
@@ -996,3 +1001,19 @@ Example covers_ex :
          (bits_to_bytes [true;false;false;true;false;false;false;false;true;false]) = OK true
   /\ covers (bits_to_bytes [true;false]) (bits_to_bytes [false;true]) = OK false.
 Proof. split; vm_compute; reflexivity. Qed.
+
+(* ===================================================================================== *)
+(** * Corollaries stated in Props/C18.v *)
+
+Lemma bitvector_check_zero bs : bitvector_check bs 0 = OK tt <-> bs = [].
+Proof.
+  rewrite bitvector_check_iff by (vm_compute; reflexivity). split.
+  - intros (bits & Hl & ->). apply lenN_zero in Hl. subst bits. reflexivity.
+  - intros ->. exists []. split; reflexivity.
+Qed.
+
+Lemma bitlist_len_pack_61 bits : lenN bits < 2 ^ 61 -> bitlist_len (pack_bitlist bits) = lenN bits.
+Proof.
+  intros H. apply bitlist_len_pack.
+  change (2 ^ 61) with 2305843009213693952 in H. change (2 ^ 64) with 18446744073709551616. lia.
+Qed.
